@@ -337,6 +337,12 @@ pub fn fingerprint(rec: &RunRecord) -> (u64, bool) {
     let mut nontrivial = false;
     // hostile-name scenarios differ by the names they carry, not by the shape of the exchange
     for p in &rec.sc.puts {
+        for r in &p.reqs {
+            nontrivial = true;
+            h = crate::prng::fnv_add(h, &[r.action]);
+            h = crate::prng::fnv_add(h, r.first.as_bytes());
+            h = crate::prng::fnv_add(h, r.second.as_bytes());
+        }
         if p.src_name.contains("..") || p.src_name.contains('{') || p.src_name.starts_with('/') {
             nontrivial = true;
             h = crate::prng::fnv_add(h, p.src_name.as_bytes());
